@@ -66,6 +66,12 @@ class Check(PropertyCheck):
                 spec = jobgen.gen_spec(self.rng, jobcheck.RES, depth=self.rng.randint(1, 3), limits=limits, pool=pool,
                                        allow_fail=(i % 4 == 0))
                 kind = ["empty", "full", "partial"][i % 3]
+                if i % 6 == 4:
+                    # a job routed to an unknown executor is rejected on the scheduler thread in dry and real runs alike
+                    # (seeded change C28c: the dry-run return moved before the executor look-up); everything else cached
+                    bad = (f"bx{i}", "leaf", 1, (), {"executor": "no_such_executor"})
+                    spec = (f"bn{i}", "list", 0, ((f"bc{i}", "catchany", 0, (bad,), None), spec), None)
+                    kind = "full"
                 base = tmp / f"b{i}.db"
                 if kind == "full":
                     sched.run_program(lambda: vm.call(spec), limits, self.rng, db_path=str(base))
